@@ -87,13 +87,17 @@ Definition jump_abs_kind (minor op : N) : res bool :=
     end
   end.
 
-(** serialize.rs [get_ver_from_magic_num]: the arms in order, [_ => panic!] last *)
-Fixpoint ver_from_ranges (rs : list (N * N * N * N)) (m : N) : res (N * N) :=
+(** serialize.rs [try_get_ver_from_magic_num]: the match arms in order; any other number is [None].
+    [get_ver_from_magic_num] is the panicking wrapper ([None => panic!]).  (Before the split the single function had the
+    same arms with [_ => panic!]; the wrapper below describes both shapes.) *)
+Fixpoint ver_from_ranges (rs : list (N * N * N * N)) (m : N) : option (N * N) :=
   match rs with
-  | [] => Panic
-  | (lo, hi, major, minor) :: t => if (lo <=? m) && (m <=? hi) then Ok (major, minor) else ver_from_ranges t m
+  | [] => None
+  | (lo, hi, major, minor) :: t => if (lo <=? m) && (m <=? hi) then Some (major, minor) else ver_from_ranges t m
   end.
-Definition get_ver_from_magic_num (m : N) : res (N * N) := ver_from_ranges erg_magic_ranges m.
+Definition try_get_ver_from_magic_num (m : N) : option (N * N) := ver_from_ranges erg_magic_ranges m.
+Definition get_ver_from_magic_num (m : N) : res (N * N) :=
+  match try_get_ver_from_magic_num m with Some v => Ok v | None => Panic end.
 
 (** serialize.rs [get_magic_num_from_bytes]: [u32::from_le_bytes([bytes[0], bytes[1], 0, 0])], bytes are u8 *)
 Definition get_magic_num_from_bytes (b0 b1 b2 b3 : N) : N := b0 + 256 * b1.
